@@ -11,6 +11,21 @@ VERIF = pathlib.Path(__file__).resolve().parents[1]
 man = json.loads((VERIF / 'MANIFEST.json').read_text())
 
 
+import re
+
+
+def counts(env=None):
+    out = {}
+    for c in man['checks']:
+        p = subprocess.run(c['quick_cmd'], shell=True, capture_output=True, text=True, env=env, cwd=str(VERIF))
+        m = re.search(r'tier=quick: (\d+) obligations', p.stdout)
+        out[c['property_id']] = int(m.group(1)) if m else None
+    return out
+
+
+BASE = None
+
+
 def one(d):
     d = pathlib.Path(d)
     w = tempfile.mkdtemp(prefix='refwt-')
@@ -22,6 +37,7 @@ def one(d):
         ev = tempfile.mkdtemp(prefix='ref-ev-')
         env = dict(os.environ, SA_REPO_ROOT=w, SA_EVIDENCE_DIR=ev)
         alarms = {}
+        fewer = {}
         norm = []
         for c in man['checks']:
             p = subprocess.run(c['quick_cmd'], shell=True, capture_output=True, text=True, env=env, cwd=str(VERIF))
@@ -31,8 +47,13 @@ def one(d):
             if p.returncode != 0:
                 lines = [l[:300] for l in p.stdout.splitlines() if l.startswith(('FINDING', 'ANALYSIS-ERROR'))]
                 alarms[c['property_id']] = {'exit': p.returncode, 'lines': lines[:4]}
+            else:
+                m = re.search(r'tier=quick: (\d+) obligations', p.stdout)
+                base = BASE.get(c['property_id']) if BASE else None
+                if m and base is not None and int(m.group(1)) < base:
+                    fewer[c['property_id']] = f'{m.group(1)} < {base}'
         subprocess.run(['rm', '-rf', ev])
-        return d.name, {'applies': True, 'alarms': alarms, 'normalised': norm}
+        return d.name, {'applies': True, 'alarms': alarms, 'normalised': norm, 'fewer': fewer}
     finally:
         subprocess.run(f'git -C /repo worktree remove --force {w}', shell=True)
 
@@ -40,6 +61,8 @@ def one(d):
 def main():
     sel = sys.argv[1:]
     dirs = sorted(str(d) for d in (VERIF / 'refactored').glob('C*-r*') if not sel or any(d.name.startswith(s) for s in sel))
+    global BASE
+    BASE = counts(dict(os.environ, SA_EVIDENCE_DIR=tempfile.mkdtemp(prefix='ref-ev-')))
     with ProcessPoolExecutor(8) as ex:
         res = dict(ex.map(one, dirs))
     n_alarm = 0
@@ -52,9 +75,11 @@ def main():
         al = v['alarms']
         if al:
             n_alarm += 1
-        print(name, 'SILENT' if not al else {p: (a['exit'], a['lines'][:2]) for p, a in al.items()}, v['normalised'])
+        print(name, 'SILENT' if not al else {p: (a['exit'], a['lines'][:2]) for p, a in al.items()}, v['normalised'],
+              ('FEWER OBLIGATIONS ' + str(v['fewer'])) if v.get('fewer') else '')
         lines.append(f"| {name} | {'silent' if not al else ', '.join(f'{p} (exit {a[chr(101)+chr(120)+chr(105)+chr(116)]})' for p, a in al.items())} | "
-                     f"{'; '.join(x.replace('NORMALISED ', '') for x in v['normalised'])} |")
+                     f"{'; '.join(x.replace('NORMALISED ', '') for x in v['normalised'])}"
+                     f"{(' fewer obligations than on HEAD: ' + str(v['fewer'])) if v.get('fewer') else ''} |")
     print(f'{len(res)} refactorings, {n_alarm} with an alarm or analysis error')
     if not sel:
         head = subprocess.run('git -C /repo rev-parse --short HEAD', shell=True, capture_output=True, text=True).stdout.strip()
